@@ -489,7 +489,8 @@ func (w *e2eWorld) generate() {
 				em.typ, em.hasTyp = t, true
 			}
 			if !w.auto {
-				ids := []string{em.tag, "id " + em.tag, "é" + em.tag, em.tag + ":x", "0" + em.tag}
+				// also what base64 cursors and URL-ish IDs look like: an ID is an opaque string that comes back verbatim
+				ids := []string{em.tag, "id " + em.tag, "é" + em.tag, em.tag + ":x", "0" + em.tag, "++" + em.tag + "=", em.tag + "%41", "%zz" + em.tag, em.tag + "/a+b"}
 				em.id = ids[ch.Intn(len(ids), "id form")]
 				m.ID = sse.ID(em.id)
 			}
